@@ -68,6 +68,9 @@ type PipelineHandler struct {
 	exporter       drivers.Driver
 	pipelineConfig PipelineHandlerConfig
 	logger         logging.Logger
+	// stateStored is set by the manager: closed when the goroutine persisting the last log ids
+	// emitted by Run has written the last one and exited.
+	stateStored <-chan struct{}
 }
 
 func (p *PipelineHandler) Run(ctx context.Context, ingestedLogs chan uint64) {
